@@ -4,6 +4,8 @@ CONSTANTS
   Ctxs = {"top", "mixin", "fn"}
   CondSet = {"true", "false", "null", "0", "str_empty", "()"}
   MaxConds = 4
+  ElseSet = {}
+  NCondSet = {}
   AVals = {}
   BVals = {}
   TVals = {}
